@@ -48,8 +48,13 @@ RULES = {
     "R12": "branch/field agreement of the attribute dispatch: for every AttributeType member the reader's branch reads exactly "
     "the AttributeProto value field(s) that the writer's branch for the same member writes (f/i/s/t/g/tp vs floats/ints/…): the "
     "singular field read in a plural branch (or the reverse) is the unset default, so that part of the attribute is dropped",
+    "R13": "absent means None, never 0 (shared rule S10): on the serialization path (serde and the tensor classes) an expression "
+    "whose declared type is an optional number (`int | None`: external-data offset and length, versions …) is tested for "
+    "presence with `is (not) None`; a truthiness test (`if v:`, `v and …`, a comprehension filter) is accepted only where "
+    "skipping 0 changes nothing - `v or 0`, or a guard around nothing but the direct store of v into a scalar proto field "
+    "(unset and 0 are the same there) - otherwise an offset or length of 0 is dropped from the written entries",
 }
-FLOORS = {"R1": 100, "R2": 40, "R3": 30, "R4": 1, "R5": 40, "R6": 20, "R7": 6, "R8": 3, "R9": 3, "R10": 10, "R11": 1, "R12": 12}
+FLOORS = {"R1": 100, "R2": 40, "R3": 30, "R4": 1, "R5": 40, "R6": 20, "R7": 6, "R8": 3, "R9": 3, "R10": 10, "R11": 1, "R12": 12, "R13": 2}
 EXPLANATION = (
     "Types every proto expression of serde.py through parameter annotations and the parsed onnx-ml.proto schema, "
     "collects per message the fields the deserializer reads and the serializer writes (attribute access, HasField, "
@@ -848,7 +853,36 @@ def rule_r11(ctx):
               construct="string payload re-encoded through numpy")
 
 
+def rule_r13(ctx):
+    from ..shared import optional_number_truth_tests
+
+    n = 0
+    for m in ctx.repo.pkg_modules():
+        if m.name not in (SERDE, "onnx_ir._core", "onnx_ir.external_data"):
+            continue
+        for f in m.all_funcs:
+            if isinstance(f.node, ast.Lambda):
+                continue
+            for node, t, src in optional_number_truth_tests(ctx.repo, ctx.typer, f):
+                n += 1
+                ok, how = False, ""
+                if isinstance(node, ast.BoolOp) and isinstance(node.op, ast.Or) and len(node.values) == 2 and node.values[0] is t \
+                        and isinstance(node.values[1], ast.Constant) and node.values[1].value == 0 and node.values[1].value is not False:
+                    ok, how = True, "`v or 0`: the default is the value that tests false"
+                elif isinstance(node, ast.If) and not node.orelse and node.test is t and all(
+                        isinstance(st, ast.Assign) and len(st.targets) == 1 and isinstance(st.targets[0], ast.Attribute) and norm(st.value) == norm(t)
+                        and any(a[0].startswith("proto") for a in ctx.typer.type_of(f, st.targets[0].value)) for st in node.body):
+                    ok, how = True, "guards only the direct store into a scalar proto field: unset and 0 are equivalent there"
+                ctx.check("R13", f"{f.local}: truthiness test of {norm(t)} ({src})", ok, f, node,
+                          f"`{norm(t)}` is declared `{src}`: an optional number - and is tested by truthiness: the value 0 (an external tensor at offset 0, "
+                          "an empty tensor of length 0, version 0) is treated as absent and what the test guards is skipped for it",
+                          how=how or "declared type of the tested expression (through locals, dict displays and loops) is an optional number",
+                          construct=f"truthiness of optional number {src}")
+    ctx.require(n >= 2, f"only {n} truthiness tests of optional numbers found on the serialization path")
+
+
 def run(ctx):
+    rule_r13(ctx)
     rule_r12(ctx)
     rule_type_reader_siblings(ctx)
     rule_r11(ctx)
